@@ -9,6 +9,9 @@ NOTE_COMMON = ("Trusted: go/ssa lowering (x/tools v0.29.0), the symgo executor's
                "in the evidence file (coverage.bounds / coverage.outside_claim) and DESIGN.md. unknown/timeout/unsupported are reported "
                "as INCONCLUSIVE, never as success or violation. ")
 claimed = {
+ 'C20': dict(cat='model_checking', ref='5/C20',
+   text="Inductive step decided by z3: from an arbitrary allocator state satisfying the representation invariant (any minValue, any scan offset, any live subset; range sizes 1..6/10) one Allocate / Allocate_inRange(any 16-bit a,b) / FreeID(any int64) is executed symbolically on the real code (the scan loop is unrolled by execution, the Go map is a symbolic association list); asserted: id in [min,max], id was not live, live set = pre+{id}, failure only when all ids live, freed id allocatable again, invariant re-established. Plus all op histories of depth <=3/4 from NewGenerator. One step from any state covers sequences of any length.",
+   note="Bounds: valueRange <= 6 (quick) / 10 (thorough); Allocate_inRange arguments 16-bit. maxValue < minValue outside the claim."),
  'C09': dict(cat='model_checking', ref='5/C09',
    text="Every annotated Get/Set pair of nasType (regenerated from /repo on each run) is executed symbolically on an element whose every octet, Iei and Len are symbolic, with a full-width symbolic argument; getter value, complete post-state of the setter (so all other bits, Iei, Len) and set-then-get are proved equal to a bit-layout reference derived from the 'Row, sBit, len' annotation. No sampling: one solver query per assertion covers all prior contents and all values.",
    note="Expected bit positions come from the source annotations (the documented position). Buffer-backed fields: Buffer just long enough for the field; INF fields at 3 buffer x 4 value lengths."),
